@@ -56,7 +56,7 @@ def replay_ops(prop: str, seed: int, ops: list[dict], knobs: dict, stop_at_class
 
 # ---------------------------------------------------------------- minimisation (ddmin)
 
-def _fails(prop, seed, ops, knobs, klass) -> bool:
+def _fails_here(prop, seed, ops, knobs, klass) -> bool:
     try:
         s = replay_ops(prop, seed, ops, knobs, stop_at_class=klass)
     except HarnessError:
@@ -64,6 +64,25 @@ def _fails(prop, seed, ops, knobs, klass) -> bool:
     except RecursionError:
         return False
     return any(v.klass() == klass for v in s.violations)
+
+
+def _fails(prop, seed, ops, knobs, klass) -> bool:
+    """Does this candidate still show the violation class?  Evaluated in a forked child, so that process-global
+    state inside the library (a cache, a class attribute) left behind by one candidate cannot leak into the next:
+    the answer is the one a fresh run of the candidate gives."""
+    if os.environ.get("VERIF_NO_FORK"):
+        return _fails_here(prop, seed, ops, knobs, klass)
+    pid = os.fork()
+    if pid == 0:
+        code = 3
+        try:
+            code = 17 if _fails_here(prop, seed, ops, knobs, klass) else 0
+        except BaseException:  # noqa
+            code = 3
+        finally:
+            os._exit(code)
+    _, status = os.waitpid(pid, 0)
+    return os.WIFEXITED(status) and os.WEXITSTATUS(status) == 17
 
 
 def _referenced(ops) -> list[dict]:
